@@ -6,6 +6,11 @@ claimed = {
  "C05": ("list single-step lemmas from arbitrary small states with fully symbolic 64-bit indexes and counts, against a Redis-style model", "§5 C05"),
  "C06": ("set single-step lemmas from arbitrary small states with symbolic members against a mathematical-set model", "§5 C06"),
  "C07": ("skip-list single-step lemmas with symbolic scores, keys and node levels: structural invariant plus every query against a (score,key)-ordered model", "§5 C07"),
+ "C08": ("differential: the full observation through the public read API before Close equals the one after Open, for symbolic KV / list / set / sorted-set histories through the real Update/Commit/Open over the modelled file system", "§5 C08"),
+ "C09": ("Open succeeds on directories produced by symbolic histories (commit-time no-ops, reads of missing buckets in sparse mode) and on every crash image of the C10 scenarios (every mutation point, every byte cut)", "§5 C09"),
+ "C10": ("crash atomicity: the modelled process dies at any file-mutation point (in-flight segment write cut at any byte); after the real Open the observation equals a crash-free twin's state after the last returned commit, or that plus the in-flight transaction in full", "§5 C10"),
+ "C12": ("differential no-effect check of failed (fn error, rollback, oversized entry at any position, injected write error), read-only and finished transactions, in process and after reopen", "§5 C12"),
+ "C13": ("differential: a multi-operation write transaction against a twin database committing each operation on its own (return values and final observation)", "§5 C13"),
  "C21": ("encode/decode round trip for all field values, every single-bit flip and every truncation of stored entries, root-index records and bucket metadata (CRC as collision-free digest)", "§5 C21"),
 }
 notes = {
